@@ -1585,7 +1585,13 @@ impl<'l> CelCompiler<'l> {
             // A collection holding an error is not a result of the call but
             // of something missing at compile time (an unbound variable read
             // inside a macro body for instance): leave the call to run time.
-            Ok(v) if !contains_error(&v) => CompiledProg::new(NodeValue::ConstExpr(v), details),
+            // A value nested deeper than any literal can be (a chain of calls
+            // wrapping its receiver again and again) stays a computation too:
+            // as a constant it would make the JSON form of the program nest
+            // deeper than serde_json reads.
+            Ok(v) if !contains_error(&v) && nests_within(&v, MAX_NESTING_DEPTH) => {
+                CompiledProg::new(NodeValue::ConstExpr(v), details)
+            }
             _ => CompiledProg::new(NodeValue::Bytecode(bc.into()), details),
         }
     }
@@ -1620,6 +1626,15 @@ fn reads_clock(bc: &CelByteCode) -> bool {
     }
 
     false
+}
+
+/// True when lists and maps in `val` are nested at most `levels` deep.
+fn nests_within(val: &CelValue, levels: usize) -> bool {
+    match val {
+        CelValue::List(l) => levels > 0 && l.iter().all(|v| nests_within(v, levels - 1)),
+        CelValue::Map(m) => levels > 0 && m.values().all(|v| nests_within(v, levels - 1)),
+        _ => true,
+    }
 }
 
 fn contains_error(val: &CelValue) -> bool {
